@@ -445,11 +445,14 @@ static void case_c20(const drvargs_t *a,long id){
       const refdec_t *ref=hs?&H:&F;
       if(c<22){
         ogg_int64_t before=ov_pcm_tell(&h.vf); int want=!hs;
-        int ret=ov_halfrate(&h.vf,want); res_eval(1);
+        /* "on" is any non-zero flag (the documentation says flag != 0 enables); what comes back from ov_halfrate_p is 0 or 1 */
+        static const int onvals[]={1,1,2,5,-1,255,0x40000000};
+        int flagval= want? onvals[rng_below(&r,7)] : 0;
+        int ret=ov_halfrate(&h.vf,flagval); res_eval(1);
         ogg_int64_t after=ov_pcm_tell(&h.vf);
         if(vh_trace) fprintf(stderr,"halfrate(%d) at %lld -> %d tell %lld\n",want,(long long)before,ret,(long long)after);
         if(ret){ res_viol("C20","toggle-refused","ov_halfrate(%d) = %d on a stream without 64-sample blocks",want,ret); break; }
-        if(ov_halfrate_p(&h.vf)!=want) res_viol("C20","halfrate_p","reports %d after setting %d",ov_halfrate_p(&h.vf),want);
+        if(ov_halfrate_p(&h.vf)!=want) res_viol("C20","halfrate_p","reports %d after ov_halfrate(%d)",ov_halfrate_p(&h.vf),flagval);
         hs=want; ref=hs?&H:&F;
         snprintf(ctx,sizeof ctx,"after ov_halfrate(%d) at %lld",want,(long long)before);
         /* position must be preserved (to the even position at or below it when switching on) */
@@ -524,10 +527,10 @@ static int replay_history(OggVorbis_File *vf,uint64_t hseed,int hs,const refdec_
   for(int i=0;i<n;i++){
     int c=(int)rng_below(&r,6); float **pcm; int bs;
     if(vh_trace) fprintf(stderr,"  hist op %d (tell %lld)\n",c,(long long)ov_pcm_tell(vf));
-    if(c==0){ ogg_int64_t p=ref->total?rng_range(&r,0,(long)ref->total):0; if(ov_pcm_seek(vf,p)) return -2; }
+    if(c==0){ ogg_int64_t p=ref->total?rng_range(&r,0,(long)ref->total):0; if(rng_chance(&r,0.7)){ if(ov_pcm_seek(vf,p)) return -2; } else { int q=ov_pcm_seek_lap(vf,p); if(q && q!=OV_EOF) return -8; } }
     else if(c==1){ ogg_int64_t p=rng_range(&r,0,(long)nbytes); if(ov_raw_seek(vf,p)) return -3; }
     else if(c==2){ int l=(int)rng_below(&r,ref->nlinks); ogg_int64_t p=ref->l[l].start+ref->l[l].len-(rng_chance(&r,0.4)?rng_range(&r,0,160):rng_range(&r,0,700)); if(p<0)p=0; if(ov_pcm_seek(vf,p)) return -4; }
-    else if(c==3){ ogg_int64_t p=ref->total-rng_range(&r,0,400); if(p<0)p=0; if(ov_pcm_seek(vf,p)) return -5; }
+    else if(c==3){ ogg_int64_t p=ref->total-rng_range(&r,0,400); if(p<0)p=0; if(rng_chance(&r,0.5)){ if(ov_pcm_seek(vf,p)) return -5; } else { int q=ov_pcm_seek_lap(vf,p); if(q && q!=OV_EOF) return -7; } }
     else { int k=(int)rng_range(&r,1,4); for(int j=0;j<k;j++) if(ov_read_float(vf,&pcm,(int)rng_range(&r,1,1500),&bs)<0) return -6; }
   }
   if(rng_chance(&r,0.1)){ float **pcm; int bs; int g=0; while(ov_read_float(vf,&pcm,4096,&bs)>0 && g++<100000); }
@@ -660,13 +663,16 @@ static void case_c19(const drvargs_t *a,long id){
   for(int it=0;it<(a->thorough?20:8) && !res_nviol();it++){
     handle_t H1,H2,T2; uint64_t s1=rng_next(&r),s2=rng_next(&r);
     if(h_open(&H1,phys.p,phys.n,1)||h_open(&H2,phys.p,phys.n,1)||h_open(&T2,phys.p,phys.n,1)){ h_close(&H1);h_close(&H2);h_close(&T2); break; }
-    if(replay_history(&H1.vf,s1,0,&F,phys.n)||replay_history(&H2.vf,s2,0,&F,phys.n)||replay_history(&T2.vf,s2,0,&F,phys.n)){ h_close(&H1);h_close(&H2);h_close(&T2); continue; }
+    int hs1=rng_chance(&r,0.3), hs2=rng_chance(&r,0.3);     /* the two handles need not agree on half-rate decoding */
+    if(replay_history(&H1.vf,s1,hs1,&F,phys.n)||replay_history(&H2.vf,s2,hs2,&F,phys.n)||replay_history(&T2.vf,s2,hs2,&F,phys.n)){ h_close(&H1);h_close(&H2);h_close(&T2); continue; }
     ogg_int64_t t2=ov_pcm_tell(&H2.vf);
     int rc=ov_crosslap(&H1.vf,&H2.vf); res_eval(1);
     if(rc==0){
       if(ov_pcm_tell(&H2.vf)!=t2 && t2>=0) res_viol("C19","crosslap-moved-second-handle","%lld -> %lld",(long long)t2,(long long)ov_pcm_tell(&H2.vf));
       float **p2,**pt; int b2,bt; long z=ov_read_float(&T2.vf,&pt,0,&bt); (void)z;
-      int n2=(int)(vorbis_info_blocksize(ov_info(&H2.vf,-1),0)>>1); int n1=(int)(vorbis_info_blocksize(ov_info(&H1.vf,-1),0)>>1); int n=n1<n2?n1:n2;
+      int n2=(int)(vorbis_info_blocksize(ov_info(&H2.vf,-1),0)>>(1+hs2)); int n1=(int)(vorbis_info_blocksize(ov_info(&H1.vf,-1),0)>>(1+hs1)); int n=n1<n2?n1:n2;
+      /* H1's link at its position is only known for sure when it has a live decoder there; otherwise bound by the largest short block of the file */
+      if(H1.vf.ready_state<4){ int mx=0; for(int k=0;k<F.nlinks;k++) if((int)(F.l[k].bs0>>(1+hs1))>mx) mx=(int)(F.l[k].bs0>>(1+hs1)); n1=mx; n= n1<n2?n1:n2; }
       long cnt=0; int bad=0;
       while(cnt<n+1500 && !bad){
         long g=ov_read_float(&H2.vf,&p2,512,&b2); if(g<=0)break;
@@ -676,7 +682,7 @@ static void case_c19(const drvargs_t *a,long id){
           done+=gt; }
         cnt+=g;
       }
-      if(!bad) res_bucket("crosslap|ok");
+      if(!bad) res_bucket("crosslap|ok|hs%d%d",hs1,hs2);
     }else res_bucket("crosslap|ret%d",rc);
     h_close(&H1);h_close(&H2);h_close(&T2);
   }
